@@ -66,7 +66,7 @@ Nunder == <<95, 120>>                          \* _x
 Names == {Na, Nid, Nplus, Ndq, Nbs, Neacute, Nalef, Neof, Ninvalid, Nunder}
 Few == {Nid, Nplus, Nalef}
 
-Lits == {<<>>, <<120>>, <<34>>, <<92>>, <<10>>, <<9>>, <<0>>, <<127>>, <<195, 169>>, <<97, 32, 98>>}
+Lits == {<<>>, <<120>>, <<34>>, <<92>>, <<10>>, <<9>>, <<0>>, <<127>>, <<195, 169>>, <<97, 32, 98>>, <<34, 120, 10, 121, 34>>}
 Nums == {0, 1, 7, 12, 305}
 Srcs == {<<>>, <<102, 46, 115, 114, 99>>}      \* no source context / "f.src"
 Errs == {<<>>, <<98, 111, 111, 109>>}          \* no custom error / "boom"
